@@ -36,7 +36,7 @@ from common import Model, hx, exc_name   # noqa: E402
 import logging                    # noqa: E402
 logging.disable(logging.CRITICAL)
 
-TMP = "/tmp/w1-selftest"
+TMP = "/tmp/w1-selftest-%d" % os.getpid()
 
 
 # ----------------------------------------------------------------------------- canonical forms
@@ -79,6 +79,10 @@ def arg_text(t, v):
         return v
     if t == T.SET:
         return ",".join(str(x) for x in sorted(v)) if v else "-"
+    if t == T.LIST(T.INT):
+        return ",".join(str(x) for x in v) if v else "-"
+    if isinstance(t, tuple) and t[0] == "list":
+        return "|".join(arg_text(t[1], x) for x in v) if v else "[]"
     if isinstance(t, tuple) and t[0] == "opt":
         return "None" if v is None else arg_text(t[1], v)
     if isinstance(t, tuple) and t[0] == "tuple":
@@ -92,10 +96,14 @@ def py_value(t, v):
         return bytearray(v)
     if t == T.SET:
         return set(v)
+    if t == T.LIST(T.INT):
+        return list(v)
     if isinstance(t, tuple) and t[0] == "opt":
         return None if v is None else py_value(t[1], v)
     if isinstance(t, tuple) and t[0] == "tuple":
         return tuple(py_value(ct, c) for ct, c in zip(t[1:], v))
+    if isinstance(t, tuple) and t[0] == "list":
+        return [py_value(t[1], x) for x in v]
     return v
 
 
@@ -116,22 +124,85 @@ def load_module(sp, src_root=None, tag=""):
     return mod
 
 
+class Dummy(object):
+    """stand-in for everything a translated slice does not model: a context manager (locks), callable
+    (notify, log), any attribute is again a Dummy"""
+    def __enter__(self):
+        return self
+
+    def __exit__(self, *a):
+        return False
+
+    def __call__(self, *a, **kw):
+        return None
+
+    def __getattr__(self, name):
+        return Dummy()
+
+
+class Truthy(types.SimpleNamespace):
+    """an object that is bound both as a value (its truth value / comparison) and through its attributes"""
+    def __init__(self, value):
+        self.__dict__["_value"] = value
+
+    def __bool__(self):
+        return bool(self.__dict__["_value"])
+
+    def __getattr__(self, name):
+        return Dummy()
+
+
+class TimeoutStandIn(Exception):
+    pass
+
+
+class SliceSelf(types.SimpleNamespace):
+    """`self` of a translated slice: bound attributes are set explicitly, class constants come from the real
+    class, everything else is a Dummy"""
+    def __getattr__(self, name):
+        cls = self.__dict__.get("_cls")
+        if cls is not None and hasattr(cls, name):
+            v = getattr(cls, name)
+            if not callable(v) and not isinstance(v, property):
+                return v
+            if name in self.__dict__.get("_calls", ()):
+                # a method the spec maps to a translated function (calls=): the real one, bound to this object
+                raw = [c.__dict__[name] for c in cls.__mro__ if name in c.__dict__][0]
+                if isinstance(raw, staticmethod):
+                    return raw.__func__
+                if isinstance(raw, classmethod):
+                    return types.MethodType(raw.__func__, cls)
+                return types.MethodType(raw, self)
+        return Dummy()
+
+
 def make_self(sp, cls, bind_vals, roots=None):
     """an object of the real class (no __init__) carrying the bound attributes; for a translated slice a
     plain namespace (the slice only reads the bound attributes).  Attribute chains that do not start at
     self (`target.sensb_res`) are put into `roots`."""
-    obj = object.__new__(cls) if (cls is not None and sp.stmts is None) else types.SimpleNamespace()
+    if cls is not None and not sp.cut:
+        sub = type(cls.__name__, (cls,), {"__getattr__": lambda self, name: Dummy()})    # locks, logs, .. not modelled
+        obj = object.__new__(sub)
+    else:
+        obj = SliceSelf()
+        obj.__dict__["_cls"] = cls
+        obj.__dict__["_calls"] = {k.split(".", 1)[1] for k in sp.calls if k.startswith(("self.", "cls.")) and k.count(".") == 1}
     for (src, pname, ty), v in zip(sp.binds, bind_vals):
+        if T.is_odd_bind(src):
+            continue       # a call/subscript/comparison text: replaced by a parameter in the compiled slice
         parts = src.split(".")
         if parts[0] not in ("self", "cls"):
             if roots is None:
                 continue
-            o = roots.setdefault(parts[0], types.SimpleNamespace())
+            o = roots.setdefault(parts[0], SliceSelf())
         else:
             o = obj
         for p in parts[1:-1]:
-            if not hasattr(o, p) or getattr(o, p) is None:
-                setattr(o, p, types.SimpleNamespace())
+            cur = getattr(o, "__dict__", {}).get(p, None)
+            if p not in getattr(o, "__dict__", {}) or cur is None:
+                setattr(o, p, SliceSelf())
+            elif not isinstance(cur, (SliceSelf, types.SimpleNamespace)):
+                setattr(o, p, Truthy(cur))       # `self.sec` bound as a bool and `self.sec.icv_size` as well
             o = getattr(o, p)
         setattr(o, parts[-1], py_value(ty, v))
     return obj
@@ -144,26 +215,85 @@ def real_callable(sp, mod, path):
     for p in parts[:-1]:
         owner = getattr(owner, p)
     cls = owner if len(parts) > 1 else None
-    if sp.stmts is None:
-        raw = cls.__dict__[parts[-1]] if cls is not None else getattr(mod, parts[-1])
+    if sp.via:
+        cls = getattr(mod, sp.via)      # the subclass through which the base-class method is run
+    setter = parts[-1].endswith("@setter")
+    if setter:
+        parts[-1] = parts[-1][:-7]
+    if not sp.cut:
+        raw = getattr(mod, parts[-1]) if cls is None else \
+            [c.__dict__[parts[-1]] for c in cls.__mro__ if parts[-1] in c.__dict__][0]
+        if setter:
+            return lambda pv, bv: raw.fset(make_self(sp, cls, bv), *[py_value(t, v) for (_, t), v in zip(sp.params, pv)])
         if isinstance(raw, staticmethod) or cls is None:
             fn = raw.__func__ if isinstance(raw, staticmethod) else raw
             return lambda pv, bv: fn(*[py_value(t, v) for (_, t), v in zip(sp.params, pv)])
+        if isinstance(raw, property):
+            return lambda pv, bv: raw.fget(make_self(sp, cls, bv))
         if isinstance(raw, classmethod):
             return lambda pv, bv: raw.__func__(cls, *[py_value(t, v) for (_, t), v in zip(sp.params, pv)])
         return lambda pv, bv: raw(make_self(sp, cls, bv), *[py_value(t, v) for (_, t), v in zip(sp.params, pv)])
     # a slice of the method: compile exactly those statements in the namespace of the real module
     tree = ast.parse(open(path).read())
-    node = tree
-    for p in parts:
-        node = [n for n in node.body if isinstance(n, (ast.ClassDef, ast.FunctionDef)) and n.name == p][0]
-    body = [x for x in node.body if not (isinstance(x, ast.Expr) and isinstance(x.value, ast.Constant))]
-    body = [body[i] for i in sp.stmts] if isinstance(sp.stmts, list) else body[sp.stmts[0]:sp.stmts[1]]
+    node = T.find_def_node(tree, sp.qual)
+    body = T.select_stmts(node, sp)
     if sp.result is not None:
-        ret = ast.Return(value=ast.Tuple(elts=[ast.Name(id=n, ctx=ast.Load()) for n in sp.result], ctx=ast.Load())
-                         if len(sp.result) > 1 else ast.Name(id=sp.result[0], ctx=ast.Load()))
+        elts = [ast.parse(n, mode="eval").body for n in sp.result]
+        ret = ast.Return(value=ast.Tuple(elts=elts, ctx=ast.Load()) if len(elts) > 1 else elts[0])
         body = body + [ret]
-    names = ["self"] + [p for p, _ in sp.params]
+    odd = [(src, pname, ty) for (src, pname, ty) in sp.binds if T.is_odd_bind(src)]
+
+    class Repl(ast.NodeTransformer):
+        def generic_visit(self, node):
+            if isinstance(node, ast.expr):
+                for (src, pname, ty) in odd:
+                    if ast.unparse(node) == src:
+                        return ast.copy_location(ast.Name(id="_b_" + pname, ctx=getattr(node, "ctx", ast.Load())), node)
+            return super().generic_visit(node)
+
+    def result_value():
+        elts = [ast.parse(n, mode="eval").body for n in sp.result]
+        return ast.Tuple(elts=elts, ctx=ast.Load()) if len(elts) > 1 else elts[0]
+
+    class Cut(ast.NodeTransformer):
+        """the same reading of the cut as the translator: dropped statements vanish, a bare `return` inside a
+        `result=` cut (without `ret=`) returns the result variables"""
+        def visit_Expr(self, node):
+            t = ast.unparse(node)
+            if T.FnT.is_log_call(None, node.value):
+                # logging: only the index expressions of the arguments are evaluated (for their exception)
+                subs = [x for a in node.value.args for x in ast.walk(a)
+                        if isinstance(x, ast.Subscript) and not isinstance(x.slice, ast.Slice)]
+                new = ast.Expr(value=ast.Tuple(elts=subs, ctx=ast.Load())) if subs else ast.Pass()
+                return ast.fix_missing_locations(ast.copy_location(new, node))
+            if isinstance(node.value, ast.Call) and ast.unparse(node.value.func) in sp.drop:
+                return ast.copy_location(ast.Pass(), node)
+            if any(t.startswith(d) for d in sp.drop):
+                return ast.copy_location(ast.Pass(), node)
+            return node
+
+        def visit_Assign(self, node):
+            if any(ast.unparse(node).startswith(d) for d in sp.drop):
+                if all(isinstance(t, ast.Name) for t in node.targets):
+                    new = ast.Assign(targets=node.targets, value=ast.Constant(value=None))     # value not modelled
+                else:
+                    new = ast.Pass()
+                return ast.fix_missing_locations(ast.copy_location(new, node))
+            return node
+
+        def visit_Return(self, node):
+            if sp.result is not None and sp.ret is None and (
+                    node.value is None or (isinstance(node.value, ast.Constant) and node.value.value is None)):
+                return ast.copy_location(ast.Return(value=result_value()), node)
+            return node
+
+        def visit_FunctionDef(self, node):
+            return node
+
+    body = [Cut().visit(x) for x in body]
+    if odd:
+        body = [Repl().visit(x) for x in body]
+    names = ["self"] + [p for p, _ in sp.params] + ["_b_" + pname for (_, pname, _) in odd]
     fdef = ast.FunctionDef(name="_slice", args=ast.arguments(posonlyargs=[], args=[ast.arg(arg=n) for n in names],
                                                              kwonlyargs=[], kw_defaults=[], defaults=[]),
                            body=body, decorator_list=[], type_params=[])
@@ -178,10 +308,40 @@ def real_callable(sp, mod, path):
     def run(pv, bv):
         roots = {}
         me = make_self(sp, cls, bv, roots)
+        for text in sp.stores:                   # stored attributes of objects other than self: a fresh stand-in
+            r = text.split(".")[0]
+            if r not in ("self", "cls") and r not in roots:
+                roots[r] = SliceSelf()
+        for name, term in sp.reraise.items():     # `raise error` of a caught exception: a real exception object
+            old = roots.get(name)
+            attrs = dict(getattr(old, "__dict__", {}))
+            if "Exc.io" in term:
+                exc = IOError(attrs.get("errno", 0), "scripted")
+            elif "Exc.llcp" in term:
+                import nfc.llcp
+                exc = nfc.llcp.Error(attrs.get("errno", 0))
+            else:
+                exc = {"Exc.index": IndexError, "Exc.value": ValueError, "Exc.timeout": TimeoutStandIn}.get(term, Exception)()
+            for k_, v_ in attrs.items():
+                if k_ not in ("errno", "_cls"):
+                    setattr(exc, k_, v_)
+            roots[name] = exc
         for r, o in roots.items():
             ns[r] = o
-        return f(me, *[py_value(t, v) for (_, t), v in zip(sp.params, pv)])
+        extra = [py_value(ty, v) for (src, pname, ty), v in zip(sp.binds, bv) if T.is_odd_bind(src)]
+        return f(me, *([py_value(t, v) for (_, t), v in zip(sp.params, pv)] + extra))
     return run
+
+
+def exc_canon(e):
+    """common.exc_name plus the driver-internal classes as NfcVerif.Exc.name prints them"""
+    t = type(e)
+    mod = getattr(t, "__module__", "")
+    if mod.startswith("nfc.clf.rcs380") and t.__name__ in ("StatusError", "CommunicationError"):
+        return "rcs380." + t.__name__
+    if t.__qualname__.endswith("Chipset.Error") or (t.__name__ == "Error" and mod.startswith("nfc.clf.pn53")):
+        return "Chipset.Error(%s)" % getattr(e, "errno", 0)
+    return exc_name(e)
 
 
 def run_real(f, pv, bv, sp=None):
@@ -193,7 +353,7 @@ def run_real(f, pv, bv, sp=None):
     except RecursionError:
         return "exc RecursionError"
     except Exception as e:     # noqa: BLE001  the class is what is compared
-        return "exc " + exc_name(e)
+        return "exc " + exc_canon(e)
 
 
 # ----------------------------------------------------------------------------- input generation
@@ -219,6 +379,10 @@ def gen_value(rng, t, k, small=False):
     if t == T.SET:
         lo = rng.randrange(0, 200)
         return sorted(set(rng.sample(range(0, 600), rng.randrange(0, 40))) | set(range(lo, lo + rng.randrange(0, 60))))
+    if t == T.LIST(T.INT):
+        return [rng.choice([0, 1, 2, 255, 256, rng.randrange(0, 70000)]) for _ in range(rng.randrange(0, 6) if k > 2 else k)]
+    if isinstance(t, tuple) and t[0] == "list":
+        return [gen_value(rng, t[1], rng.randrange(0, 60)) for _ in range(rng.randrange(0, 4))]
     if isinstance(t, tuple) and t[0] == "opt":
         return None if k % 4 == 0 else gen_value(rng, t[1], k)
     if isinstance(t, tuple) and t[0] == "tuple":
@@ -233,7 +397,11 @@ GROUP_MODULE = {m.GROUP: m for m in SPEC_MODULES}
 def custom_inputs(rng, sp):
     """extra, function specific inputs from the group's spec file: [(param values, bind values)]"""
     f = getattr(GROUP_MODULE[sp.group], "inputs", None)
-    return f(rng, sp) if f else []
+    try:
+        return f(rng, sp) if f else []
+    except Exception as e:      # noqa: BLE001  a spec file under construction must not stop the other groups
+        print("  WARNING: inputs() of group %s failed for %s: %s %s" % (sp.group, sp.lean, type(e).__name__, e))
+        return []
 
 
 def small_ints(sp):
@@ -246,6 +414,9 @@ def inputs_for(sp, rng, n):
     seen, out = set(), []
 
     def add(pv, bv):
+        for (name, _t), v in list(zip(sp.params, pv)) + [((pn, t), v) for (_s, pn, t), v in zip(sp.binds, bv)]:
+            if name in sp.nonneg and isinstance(v, int) and v < 0:
+                return          # declared precondition of the cut
         key = repr((pv, bv))
         if key not in seen:
             seen.add(key)
@@ -269,12 +440,17 @@ def request_line(sp, pv, bv):
 
 
 # ----------------------------------------------------------------------------- part 1
+ONLY_GROUPS = None
+
+
 def part1(seed, n, verbose=True):
     rng = random.Random(seed)
     specs = fnbridge.regenerate()
     model = Model("drv_fn")
     rows, total, diffs = [], 0, 0
     for sp in specs:
+        if ONLY_GROUPS is not None and sp.group not in ONLY_GROUPS:
+            continue
         if sp.refused:
             rows.append((sp.lean, "refused", 0, 0, sp.refused))
             continue
@@ -360,12 +536,9 @@ def all_mutations():
 
 
 def fn_segment(text, qual):
-    tree = ast.parse(text)
-    node = tree
-    for p in qual.split("."):
-        node = [n for n in node.body if isinstance(n, (ast.ClassDef, ast.FunctionDef)) and n.name == p][0]
-    lines = text.split("\n")
-    return node.lineno - 1, node.end_lineno     # [start, end) line indices
+    node = T.find_def_node(ast.parse(text), qual)
+    first = min([node.lineno] + [d.lineno for d in node.decorator_list])
+    return first - 1, node.end_lineno     # [start, end) line indices, decorators included
 
 
 def apply_mutation(text, sp, old, new, desc):
@@ -384,8 +557,10 @@ def apply_mutation(text, sp, old, new, desc):
 def scratch_lean():
     dst = os.path.join(TMP, "lean")
     os.makedirs(TMP, exist_ok=True)
-    subprocess.run(["rsync", "-a", "--delete", "--exclude", ".lake/build/bin", "--exclude", ".lake/audit", "--exclude", "NfcVerif/Gen/FnToy.lean",
-                    "--exclude", ".lake.lock", common.LEAN + "/", dst + "/"], check=True)
+    p = subprocess.run(["rsync", "-a", "--delete", "--exclude", ".lake/build/bin", "--exclude", ".lake/audit",
+                        "--exclude", "NfcVerif/Gen/FnToy.lean", "--exclude", ".lake.lock", common.LEAN + "/", dst + "/"])
+    if p.returncode not in (0, 24):      # 24: files vanished while copying (another worker is building)
+        raise RuntimeError("rsync of the lean workspace failed (%d)" % p.returncode)
     return dst
 
 
@@ -402,7 +577,8 @@ def part2(seed, n, verbose=True, only=None):
     dst = scratch_lean()
     gen_dir = os.path.join(dst, "NfcVerif", "Gen")
     base_text = {g: open(os.path.join(gen_dir, "Fn%s.lean" % g)).read() for g in {sp.group for sp in base_specs}}
-    modules = sorted({info["module"] for info in fnbridge.GROUPS.values()})
+    modules = sorted({info["module"] for g, info in fnbridge.GROUPS.items()
+                      if (ONLY_GROUPS is None or g in ONLY_GROUPS) and info["theorems"]})
     rc, out = lake_scratch(dst, modules)
     if rc != 0:
         raise RuntimeError("baseline build in the scratch copy failed:\n" + out[-3000:])
@@ -411,21 +587,26 @@ def part2(seed, n, verbose=True, only=None):
     for idx, (group, lean, desc, old, new) in enumerate(all_mutations()):
         if only is not None and idx not in only:
             continue
+        if ONLY_GROUPS is not None and group not in ONLY_GROUPS:
+            continue
         sp = by_name[lean]
         root = os.path.join(TMP, "mut%02d" % idx)
         shutil.rmtree(root, ignore_errors=True)
-        for f in files:
-            os.makedirs(os.path.dirname(os.path.join(root, "src", "nfc", f)), exist_ok=True)
-            shutil.copy(os.path.join(common.REPO, "src", "nfc", f), os.path.join(root, "src", "nfc", f))
+        shutil.copytree(os.path.join(common.REPO, "src", "nfc"), os.path.join(root, "src", "nfc"),
+                        ignore=shutil.ignore_patterns("__pycache__", "*.pyc"))
         path = os.path.join(root, "src", "nfc", sp.file)
         mutated = apply_mutation(open(path).read(), sp, old, new, desc)
         with open(path, "w") as fh:
             fh.write(mutated)
         # does the mutation change behaviour? (original vs mutated Python on the part-1 inputs)
         forig = real_callable(sp, load_module(sp), os.path.join(common.REPO, "src", "nfc", sp.file))
-        fmut = real_callable(sp, load_module(sp, root, "%02d" % idx), path)
         ins = inputs_for(sp, rng, n)
-        changed = sum(1 for pv, bv in ins if run_real(forig, pv, bv, sp) != run_real(fmut, pv, bv, sp))
+        try:
+            fmut = real_callable(sp, load_module(sp, root, "%02d" % idx), path)
+            changed = sum(1 for pv, bv in ins if run_real(forig, pv, bv, sp) != run_real(fmut, pv, bv, sp))
+        except (T.Refuse, IndexError, KeyError, AttributeError, SyntaxError) as e:
+            changed = len(ins)       # the cut is no longer present in the mutated source
+            print("      (mutated source no longer has the cut: %s)" % e)
         # translate the mutated tree into the scratch workspace and build the bridge
         mspecs = T.load_specs()
         T.emit(root, gen_dir, specs=mspecs, only={group})
@@ -461,7 +642,10 @@ def main():
     ap.add_argument("--json")
     ap.add_argument("--keep", action="store_true")
     ap.add_argument("--only", help="comma separated mutation indices (part 2)")
+    ap.add_argument("--group", help="comma separated groups: restrict parts 1 and 2 to them")
     a = ap.parse_args()
+    global ONLY_GROUPS
+    ONLY_GROUPS = set(a.group.split(",")) if a.group else None
     res, rc = {}, 0
     if a.part in ("0", "all"):
         total, diffs = part0(a.seed, a.n)
